@@ -192,6 +192,20 @@ impl Prop for C05 {
             let i = rng.below(replicas.len().max(2) - 1);
             replicas[i].role = format!("logging-{}", replicas[i].role);
         }
+        if rng.pct(15) {
+            let i = rng.range(1, replicas.len() - 1);
+            if replicas[i].steps.len() > 1 && replicas[i].warmup.is_empty() {
+                // migrating twin: every delivery on another fresh thread
+                replicas[i].role = format!("migrating-{}", replicas[i].role);
+            }
+        }
+        if rng.pct(30) {
+            // environment twin: LANG / LC_* / TZ / HOME / PWD / RUST_LOG ... are set on this replica's thread only
+            let i = rng.below(replicas.len());
+            if i > 0 {
+                replicas[i].role = format!("env-{}", replicas[i].role);
+            }
+        }
         let derive = rng.pick(&["Serialize, Deserialize", "", "Debug", "Debug, Clone, Debug", "Serialize, Deserialize, Debug, Serialize", "B, A, C, A, B"]).to_string();
         Scenario::Session(Session { alts: vec![None; docs.len()], docs, replicas, opts: all_opts(&derive) })
     }
@@ -224,6 +238,12 @@ impl Prop for C05 {
         let mut order_changed = false;
         for (ri, r) in outs.iter().enumerate() {
             add(ctr, "getrandom_calls", r.getrandom_calls);
+            for n in &r.env_read {
+                bump(ctr, &format!("reach.library_read_environment_variable.{n}"));
+            }
+            if s.replicas[ri].role.starts_with("env-") {
+                bump(ctr, "fault.populated_environment_twin");
+            }
             for (si, st) in r.steps.iter().enumerate() {
                 sim_steps += st.stats.fill_calls + 1;
                 add(ctr, "fault.eintr", st.stats.eintr_fired);
@@ -263,6 +283,7 @@ impl Prop for C05 {
             }
         }
         bump(ctr, "fault.entropy_twin_sessions");
+        super::count_decorations(s, ctr);
         if s.replicas.iter().any(|r| !r.warmup.is_empty()) {
             bump(ctr, "fault.veteran_thread_twin");
         }
